@@ -77,10 +77,12 @@ def run(ctx):
     pol_cases = []
     from ssh_audit.builtin_policies import BUILTIN_POLICIES
     names = [n for n, p in BUILTIN_POLICIES.items() if p['server_policy']]
-    for pn in (rng.sample(names, 6) if q else names):
+    POL_OPTS = [[], ['-j'], ['-b'], ['-jj'], ['-v'], ['-l', 'warn'], ['-j', '-l', 'fail']]
+    for k, pn in enumerate(rng.sample(names, 7) if q else names):
         pol = BUILTIN_POLICIES[pn]
-        for variant in ('exact', 'drift'):
-            pol_cases.append((pn, pol, variant))
+        for d, variant in enumerate(('exact', 'drift')):
+            # the verdict decides the status under every output option (text, JSON, batch, verbose, minimum level)
+            pol_cases.append((pn, pol, variant, POL_OPTS[(k + 3 * d) % len(POL_OPTS)]))
 
     def do(z, case):
         kind, p, opts = case
@@ -114,7 +116,7 @@ def run(ctx):
         return res
 
     def do_pol(z, case):
-        pn, pol, variant = case
+        pn, pol, variant, popts = case
         kex = list(pol['kex']); key = list(pol['host_keys']); enc = list(pol['ciphers']); mac = list(pol['macs'])
         if variant == 'drift':
             enc = enc[1:] + ['3des-cbc']
@@ -127,7 +129,7 @@ def run(ctx):
         dh = pol['dh_modulus_sizes'] or {}
         srv = P.new_ssh2_server(dict(banner=b'SSH-2.0-OpenSSH_9.0', kex=kex, key=key, enc=enc, mac=mac, hostkeys=hostkeys, gex=lambda a, b, c: max(a, min(c, max(dh.values()))) if dh else None))
         try:
-            res = z.run(['-n', '--skip-rate-test', '-t', '2', '-P', pn, '127.0.0.1:%d' % srv.port], timeout=60)
+            res = z.run(['-n', '--skip-rate-test', '-t', '2'] + popts + ['-P', pn, '127.0.0.1:%d' % srv.port], timeout=60)
         finally:
             srv.shutdown()
         return res
@@ -178,10 +180,18 @@ def run(ctx):
             if res['rc'] != 1 or has_report:
                 ctx.violation('incomplete-audit/%s' % kind, 'handshake broken (%s): exit status %r, algorithm report shown: %r' % (kind, res['rc'], has_report),
                               {'op': 'cli', 'kind': kind, 'opts': opts, 'out': out[-500:]})
-    for (pn, pol, variant), res in zip(pol_cases, presults):
+    for (pn, pol, variant, popts), res in zip(pol_cases, presults):
         out = canon.strip_ansi(res['out'])
-        passed = 'Passed' in out and 'Failed!' not in out
-        failed = 'Failed!' in out
+        if '-j' in popts or '-jj' in popts:
+            try:
+                verdict = canon.load_json(res['out']).get('passed')
+            except (canon.CanonError, AttributeError):
+                verdict = None
+            passed, failed = verdict is True, verdict is False
+        else:
+            passed = 'Passed' in out and 'Failed!' not in out
+            failed = 'Failed!' in out
+        variant = variant + ('/' + ''.join(popts) if popts else '')
         n2.add(('policy', variant, res['rc']))
         if not ((res['rc'] == 0 and passed and not failed) or (res['rc'] == 3 and failed and not passed)):
             ctx.violation('policy-status/%s' % variant, 'policy audit (%s, %s): exit status %r, passed=%r failed=%r: %s' % (pn, variant, res['rc'], passed, failed, out[-400:]),
